@@ -2,6 +2,7 @@
 from __future__ import annotations
 
 import functools
+import enum
 import typing
 
 from typelib import graph
@@ -100,6 +101,11 @@ def invariants(root, label, res, case, *, shape, expect_deferred_alias=None):
     uroot = inspection.unwrap(root) if not isinstance(root, (str, typing.ForwardRef)) else None
     if not isinstance(root, (str, typing.ForwardRef)) and not (_eq(last.type, root) and not last.cyclic):
         res.violation(f"C09/I3-root-last/{shape}", f"last node of static_order({label}) is {last!r}", case)
+    # I11: a node stands for a type; the members of a Literal are VALUES (str / int / bytes / enum members), never nodes
+    for n in nodes:
+        if isinstance(n.type, (str, bytes, int, float, enum.Enum)) and not (isinstance(root, str) and n is last):
+            res.violation(f"C09/I11-value-node/{shape}", f"static_order({label}) contains the node {n!r}: its label is a value, not a type", case)
+            break
     # I4 / I6 / I7 / I8
     den = [denotes(n) for n in nodes]
     for i, n in enumerate(nodes):
@@ -126,7 +132,15 @@ def invariants(root, label, res, case, *, shape, expect_deferred_alias=None):
                 res.violation(f"C09/I7-flagged-is-revisit/{shape}", f"node {n!r} is flagged cyclic but denotes {d!r}, which is no other node of static_order({label})", case)
             continue
         if type(n.unwrapped) is typing.ForwardRef:
-            continue  # string-valued alias: a deferred node by I5, nothing to expand
+            # string-valued alias (possibly behind qualifiers / NewTypes / value aliases): a deferred node by I5, nothing to expand -
+            # but the reference it carries must evaluate to the alias body as the ALIAS's module spells it
+            body = _string_alias_body(n.type)
+            if body is not None:
+                ev = call(refs.evaluate, n.unwrapped)
+                res.evals += 1
+                if not ev.ok or not _eq(ev.val, body):
+                    res.violation(f"C09/I5-string-alias/{shape}/wrong-body-behind-wrapper", f"node {n!r}: its reference resolves to {ev!r}, the string alias it stands for has the body {body!r} ({label})", case)
+            continue
         want = members(n.unwrapped)
         for m in want:
             ok = False
@@ -169,6 +183,30 @@ def invariants(root, label, res, case, *, shape, expect_deferred_alias=None):
         res.violation(f"C09/I10-memo-mutation/{shape}", f"static_order({label}) after mutating the previously returned list gives {short(again.val if again.ok else again.exc, 120)}", case)
         cold.clear_all()
     return snapshot
+
+
+def _string_alias_body(t):
+    """Peel qualifiers / NewTypes / value aliases down to a string-valued alias and evaluate its text in the alias's own module
+    (independent of the library); None when `t` is not such a chain or the text does not evaluate."""
+    import sys
+
+    for _ in range(16):
+        if isinstance(t, typing.TypeAliasType):
+            v = t.__value__
+            if isinstance(v, str):
+                mod = sys.modules.get(t.__module__)
+                try:
+                    return eval(v, dict(vars(mod))) if mod is not None else None  # noqa: S307 - our own synthesised source
+                except Exception:  # noqa: BLE001
+                    return None
+            t = v
+        elif hasattr(t, "__supertype__"):
+            t = t.__supertype__
+        elif typing.get_origin(t) in (typing.Final, typing.ClassVar):
+            t = typing.get_args(t)[0]
+        else:
+            return None
+    return None
 
 
 def forms(ns, modname, expr, root, res, case, shape, base_nodes):
@@ -317,6 +355,21 @@ Basket9 = typing.NewType("Basket9", Items9)
 class HasBasket:
     b: Basket9
     n: int = 0
+StrAliasP = typing.TypeAliasType("StrAliasP", "list[Plain2]")
+NewOverStr = typing.NewType("NewOverStr", StrAliasP)
+@dataclasses.dataclass
+class StrAliasBehindWrappers:
+    # a string-valued alias reached through another layer (qualifier / NewType): the reference it carries belongs to the ALIAS's module
+    fin: typing.Final[StrAliasP] = None
+    nt: NewOverStr = None
+    direct: StrAliasP = None
+@dataclasses.dataclass
+class QualifiedLeaves:
+    # Literal leaves (their arguments are values, not member types) behind a qualifier; Callable / type[X] are outside U (C15)
+    mode: typing.Final[typing.Literal["r", "w"]] = "r"
+    cmode: typing.ClassVar[typing.Literal["x", "y"]] = "x"
+    lits: list[typing.Literal["p", "q"]] = dataclasses.field(default_factory=list)
+    p: Plain2 = None
 class HasLen(typing.Protocol):
     def __len__(self) -> int: ...
 @dataclasses.dataclass
@@ -341,7 +394,7 @@ def run_special(res):
     ns = prelude.mkmod("tlg_c09_special", SPECIAL).__dict__
     res.programs += 1
     case = {"kind": "special"}
-    for nm in ("Outer.Inner", "UsesNested", "HasAlias", "Wrapped", "RecAlias", "StrAlias", "Link", "GNode", "SharesG", "ProtoNode", "SharedViaQualifier", "CycViaFinal", "HasBasket"):
+    for nm in ("Outer.Inner", "UsesNested", "HasAlias", "Wrapped", "RecAlias", "StrAlias", "Link", "GNode", "SharesG", "ProtoNode", "SharedViaQualifier", "CycViaFinal", "HasBasket", "QualifiedLeaves", "StrAliasBehindWrappers"):
         root = eval(nm, ns)  # noqa: S307
         for form in ("cls", "list", "dict"):
             r = {"cls": root, "list": list[root], "dict": dict[str, root]}[form]
